@@ -432,6 +432,7 @@ def run(ctx):
         ctx.violation('counterexample', 'cnfshuffle -q still prints the comment header', dict(input=dict(tool='cnfshuffle', argv=['-q', '--seed', '3']), output=r['out'].decode()[:300]),
                       True, site='cnfshuffle', cls='quiet-ignored')
     shutil.rmtree(base, ignore_errors=True)
+    seeded_sessions(ctx)
     three_way(ctx)
 
 
@@ -480,3 +481,121 @@ def three_way(ctx):
             ctx.violation('correspondence', 'command line formula differs from the family model %s' % fam['name'],
                           dict(input=dict(argv=argv, params=p), cli_numvar=F.number_of_variables(), model_numvar=rep[0]), False, site='cli-vs-model', cls=fam['name'])
     shutil.rmtree(tmp, ignore_errors=True)
+
+
+def seeded_sessions(ctx):
+    """`--seed S` is the seed "for any random process in the program": a command line that draws random numbers in several
+    places (a random graph argument, random charges, a random transformation) stands for ONE library session
+        random.seed(S); G = <graph named by the argument>; F = generator(G); F = T1(F); ...
+    in which every random step continues the stream of the previous one.  The graph of the session is compared with the one
+    `save` stores, so both sides talk about the same graph."""
+    import random
+    import cnfgen
+    from cnfgen.formula.cnf import CNF
+    from cnfgen.formula.opb import OPB
+    from cnfgen.clitools.cnfgen import cli as cnfgen_cli
+    from cnfgen.clitools.pbgen import cli as pbgen_cli
+    from cnfgen.clitools.graph_args import make_graph_from_spec
+    rng = ctx.rng
+    base = tempfile.mkdtemp(prefix='c17s-')
+
+    def charges(kind, G):
+        ch = [random.randint(0, 1) for _ in range(G.order() - 1)]
+        par = sum(ch) % 2
+        ch.append(random.randint(0, 1) if kind == 'random' else (1 - par if kind == 'randomodd' else par))
+        return ch
+
+    def simple_spec():
+        n = rng.randint(4, 9)
+        return [str(x) for x in rng.choice([['gnp', n, '0.5'], ['gnm', n, rng.randint(2, n)], ['gnd', 2 * (n // 2 + 1), 3],
+                                            ['grid', 3, 3, 'plantclique', 3], ['complete', n, 'splitedges', 2], ['gnm', n, 3, 'addedges', 2],
+                                            ['grid', 2, 3]])]
+
+    def bip_spec():
+        return [str(x) for x in rng.choice([['glrp', 4, 4, '0.5'], ['glrd', 4, 5, 2], ['glrm', 4, 4, 6], ['regular', 4, 4, 2],
+                                            ['glrd', 3, 4, 2, 'addedges', 2], ['complete', 2, 3]])]
+
+    def shapes():
+        k = rng.randint(2, 3)
+        sp = simple_spec()
+        yield ['kcolor', str(k)], ('simple', sp), (lambda fc, G: cnfgen.GraphColoringFormula(G, k, formula_class=fc))
+        ck = rng.choice(['random', 'randomodd', 'randomeven'])
+        sp = simple_spec()
+        yield ['tseitin', ck], ('simple', sp), (lambda fc, G: cnfgen.TseitinFormula(G, charges(ck, G), formula_class=fc))
+        sp = simple_spec()
+        yield ['matching'], ('simple', sp), (lambda fc, G: cnfgen.PerfectMatchingPrinciple(G, formula_class=fc))
+        sp = bip_spec()
+        yield ['subsetcard'], ('bipartite', sp), (lambda fc, G: cnfgen.SubsetCardinalityFormula(G, formula_class=fc))
+        sp = bip_spec()
+        yield ['php'], ('bipartite', sp), (lambda fc, G: cnfgen.GraphPigeonholePrinciple(G, formula_class=fc))
+        kk, nn, mm = rng.randint(2, 3), rng.randint(4, 7), rng.randint(2, 6)
+        yield ['randkcnf', str(kk), str(nn), str(mm)], None, (lambda fc, G: cnfgen.RandomKCNF(kk, nn, mm, formula_class=fc))
+
+    def steps(nv_hint):
+        out = []
+        for _ in range(rng.choice([0, 1, 1, 2])):
+            t = rng.choice(['shuffle', 'shuffle-p', 'xorcomp', 'majcomp', 'xor', 'flip'])
+            if t == 'shuffle':
+                out.append((['shuffle'], lambda F: cnfgen.Shuffle(F)))
+            elif t == 'shuffle-p':
+                out.append((['shuffle', '-p'], lambda F: cnfgen.Shuffle(F, polarity_flips='fixed')))
+            elif t in ('xorcomp', 'majcomp'):
+                N, d = rng.randint(3, 6), rng.randint(1, 3)
+                fn = 'xor' if t == 'xorcomp' else 'maj'
+                out.append(([t, str(N), str(d)], lambda F, N=N, d=d, fn=fn: cnfgen.VariableCompression(
+                    F, make_graph_from_spec('bipartite', ['glrd', len(list(F.variables())), N, d]), function=fn)))
+            elif t == 'xor':
+                out.append((['xor', '2'], lambda F: cnfgen.XorSubstitution(F, 2)))
+            else:
+                out.append((['flip'], lambda F: cnfgen.FlipPolarity(F)))
+        return out
+
+    def sig(F):
+        return (F.number_of_variables(), list(F.all_variable_labels()), [list(c) if isinstance(c, (list, tuple)) else c for c in F])
+    rounds = 5 if ctx.tier == 'quick' else 40
+    n = 0
+    for _ in range(rounds):
+        for fcmd, gs, gen in shapes():
+            for tool in ('cnfgen', 'pbgen'):
+                seed = rng.choice([0, 1, 3, 77, -5, 2 ** 40])
+                chain = steps(0) if tool == 'cnfgen' else []
+                n += 1
+                saved = os.path.join(base, 's%d.%s' % (n, 'gml' if gs and gs[0] == 'simple' else 'kthlist'))
+                argv = [tool, '-q', '-S', str(seed)] + fcmd + ((gs[1] + ['save', saved]) if gs else [])
+                for tk, _ in chain:
+                    argv += ['-T'] + tk
+                fc = CNF if tool == 'cnfgen' else OPB
+                a = outcome(lambda: (cnfgen_cli if tool == 'cnfgen' else pbgen_cli)(argv, mode='formula'))
+
+                def session():
+                    random.seed(seed)
+                    G = make_graph_from_spec(gs[0], gs[1]) if gs else None
+                    F = gen(fc, G)
+                    for _, fn in chain:
+                        F = fn(F)
+                    return F, G
+                b = outcome(session)
+                random_places = (1 if gs and any(t in gs[1] for t in ('gnp', 'gnm', 'gnd', 'glrp', 'glrd', 'glrm', 'regular', 'plantclique', 'addedges', 'splitedges')) else 0) \
+                    + (1 if fcmd[0] in ('tseitin', 'randkcnf') else 0) + sum(1 for tk, _ in chain if tk[0] in ('shuffle', 'xorcomp', 'majcomp'))
+                ctx.count('seeded-sessions', ('seeded', tuple(argv[1:])), nontrivial=random_places >= 2, sample=dict(argv=argv))
+                ctx.tally('seeded session: places drawing random numbers', random_places)
+                descr = dict(tool=tool, argv=[x.replace(base, '<tmp>') for x in argv[1:]], seed=seed)
+                if a[0] != 'ok' or b[0] != 'ok':
+                    if a[0] != b[0]:      # both refuse (CLIError / SystemExit on one side, ValueError on the other): agreement
+                        ctx.violation('counterexample', 'seeded command line ends in %r, the seeded library session in %r' % (a[:2], b[:2]),
+                                      dict(input=descr), True, site='seeded-session', cls=fcmd[0])
+                    continue
+                F, (L, G) = a[1], b[1]
+                if gs:
+                    S = cnfgen.readGraph(saved, gs[0])
+                    same_graph = (S.order() == G.order() and sorted(S.edges()) == sorted(G.edges())) if gs[0] == 'simple' else \
+                        (S.left_order() == G.left_order() and S.right_order() == G.right_order() and sorted(S.edges()) == sorted(G.edges()))
+                    if not same_graph:
+                        ctx.violation('counterexample', 'the graph the seeded command line stores with save is not the one the graph argument names under the same seed',
+                                      dict(input=descr), True, site='seeded-session', cls='graph')
+                        continue
+                if sig(F) != sig(L):
+                    ctx.violation('counterexample', 'seeded command line differs from the library session random.seed(S); graph; generator; transformations left to right '
+                                  '(%d vs %d variables, %d vs %d clauses)' % (F.number_of_variables(), L.number_of_variables(), len(F), len(L)),
+                                  dict(input=descr, random_places=random_places), True, site='seeded-session', cls=fcmd[0])
+    shutil.rmtree(base, ignore_errors=True)
